@@ -30,7 +30,7 @@ QUICK = {'budget_s': 30}
 THOROUGH = {'budget_s': 300}
 EXPECTED_PROBES = ['flag_over_loaded', 'loaded_over_default', 'override_false_kept', 'undeclared_ignored',
                    'undeclared_allowed_then_declared', 'reset', 'restore_after_raise', 'malformed_yaml', 'non_dict_yaml',
-                   'failing_stream', 'redeclare_refused', 'none_value_loaded']
+                   'failing_stream', 'redeclare_refused', 'none_value_loaded', 'wrapped_called_later']
 
 _m = {}
 KEYS = ['alpha', 'beta', 'gamma', 'delta', 'eps', 'zeta']
@@ -95,6 +95,7 @@ def run_one(tape):
   probes = {}
   faults = {}
   hist = []
+  pending = []   # functions wrapped with save_and_restore earlier in the history
   nops = 3 + tape.draw(23, 'nops')
 
   def check(after):
@@ -145,8 +146,16 @@ def run_one(tape):
 
   for i in range(nops):
     op = tape.weighted([(5, 'declare'), (5, 'load'), (3, 'load_file'), (2, 'flags'), (2, 'reset'), (3, 'save_restore'),
-                        (1, 'setattr'), (1, 'declare_bad')], 'op')
+                        (1, 'setattr'), (1, 'declare_bad'), (2, 'call_wrapped')], 'op')
     desc = op
+    rec = None
+    if op == 'call_wrapped':
+      # call (again) a function that was wrapped with save_and_restore earlier in the history
+      if not pending:
+        continue
+      rec = pending[tape.draw(len(pending), 'which_wrapped')]
+      probes['wrapped_called_later'] = 1
+      op = 'save_restore'
     if op == 'declare':
       k = tape.pick(KEYS, 'key')
       has_def = tape.chance(500, 'has_default')
@@ -244,27 +253,41 @@ def run_one(tape):
       model.loaded = {}
       probes['reset'] = 1
     elif op == 'save_restore':
-      inner = {tape.pick(KEYS, 'key'): tape.pick(VALUES, 'val') for _ in range(1 + tape.draw(2, 'ninner'))}
-      deco = {tape.pick(KEYS, 'key'): tape.pick(VALUES, 'val')} if tape.chance(400, 'deco_values') else {}
-      raises = tape.chance(400, 'wrapped_raises')
-      do_reset = tape.chance(150, 'inner_reset')
-      desc = 'save_and_restore(%r)(load(%r)%s%s)' % (deco, inner, '; reset' if do_reset else '', '; raise' if raises else '')
-      seen = {}
+      if rec is None:
+        inner = {tape.pick(KEYS, 'key'): tape.pick(VALUES, 'val') for _ in range(1 + tape.draw(2, 'ninner'))}
+        deco = {tape.pick(KEYS, 'key'): tape.pick(VALUES, 'val')} if tape.chance(400, 'deco_values') else {}
+        raises = tape.chance(400, 'wrapped_raises')
+        do_reset = tape.chance(150, 'inner_reset')
+        seen = {}
 
-      def body():
-        conf.load(**inner)
-        if do_reset:
-          conf.reset()
-        for k in KEYS:
-          try:
-            seen[k] = ('val', conf[k])
-          except Exception as e:  # pylint: disable=broad-except
-            seen[k] = ('exc', type(e).__name__)
-        if raises:
-          raise ValueError('wrapped function failed')
-        return 'ret'
+        def body(inner=inner, do_reset=do_reset, raises=raises, seen=seen):
+          conf.load(**inner)
+          if do_reset:
+            conf.reset()
+          for k in KEYS:
+            try:
+              seen[k] = ('val', conf[k])
+            except Exception as e:  # pylint: disable=broad-except
+              seen[k] = ('exc', type(e).__name__)
+          if raises:
+            raise ValueError('wrapped function failed')
+          return 'ret'
 
-      wrapped = conf.save_and_restore(body, **deco) if not deco else conf.save_and_restore(**deco)(body)
+        wrapped = conf.save_and_restore(body, **deco) if not deco else conf.save_and_restore(**deco)(body)
+        rec = {'inner': inner, 'deco': deco, 'raises': raises, 'do_reset': do_reset, 'seen': seen, 'wrapped': wrapped}
+        if len(pending) < 3:
+          pending.append(rec)
+        if tape.chance(350, 'only_decorate'):
+          # decorated now, called by a later step: the values to restore are those at *call* time
+          desc = 'decorate save_and_restore(%r)(load(%r))' % (deco, inner)
+          hist.append(desc)
+          if not check(desc):
+            break
+          continue
+      inner, deco, raises, do_reset, seen, wrapped = (rec['inner'], rec['deco'], rec['raises'], rec['do_reset'],
+                                                      rec['seen'], rec['wrapped'])
+      seen.clear()
+      desc = 'call save_and_restore(%r)(load(%r)%s%s)' % (deco, inner, '; reset' if do_reset else '', '; raise' if raises else '')
       saved = dict(model.loaded)
       model.load(deco)
       model.load(inner)
